@@ -345,6 +345,9 @@ func (store *KeyStore) SaveKeyPairWithFilename(keypair *keys.Keypair, filename s
 	}
 	store.cache.Add(filename, cacheEncryptedPrivate)
 	store.cache.Add(filename+".pub", keypair.Public.Value)
+	// a previous private key now lives in the history directory, which a cached list of historical file names
+	// does not know about: forget the list, otherwise that key is not offered for decryption until the cache is reset
+	store.cache.Add(cacheKeyPrefix+filepath.Join(store.privateKeyDirectory, filename), nil)
 	return nil
 }
 
@@ -451,7 +454,7 @@ var errCacheMissHistoricalFilenames = errors.New("cache doesn't contain historic
 func (store *KeyStore) getCachedHistoricalPrivateKeyFilenames(id string) ([]string, error) {
 	key := cacheKeyPrefix + id
 	value, ok := store.cache.Get(key)
-	if !ok {
+	if !ok || value == nil {
 		return nil, errCacheMissHistoricalFilenames
 	}
 	paths := &fs.HistoricalPaths{}
